@@ -85,3 +85,49 @@ func VerifC17Own() {
 	}
 	vapi.Reach("own-end")
 }
+
+// VerifC17TermRace: an upload round that orders a user terminated overlaps with that user's last session closing
+// and the user reconnecting (a fresh active record): at quiescence the user ordered terminated has no live session
+// left on a record the server has forgotten, and its usage was charged exactly once.
+func VerifC17TermRace() {
+	vapi.SetPreemptBound(vapi.Param("preempt", 2))
+	w := vPanel()
+	w.addUser(vUIDs[0], 5, 100, 100, w.now+1000)
+	u0, s1, _, _ := w.admit(vUIDs[0], 1, "k1")
+	vapi.Assume(u0 != nil && s1 != nil)
+	u0.valve.AddRx(150) // more than the credit: the next upload orders the user terminated
+	w.panel.updateUsageQueue()
+	var ub *ActiveUser
+	var ns *mux.Session
+	var nerr error
+	d1, d2 := false, false
+	committer := func() { w.panel.commitUpdate(); d1 = true }
+	reconnect := func() {
+		u0.CloseSession(1, "")
+		ub, ns, _, nerr = w.admit(vUIDs[0], 2, "k2")
+		d2 = true
+	}
+	if vapi.Pick("first", 2) == 0 {
+		go committer()
+		go reconnect()
+	} else {
+		go reconnect()
+		go committer()
+	}
+	vapi.Quiesce()
+	vapi.Assert(d1 && d2, "C17: both operations complete")
+	vapi.Assert(s1.IsClosed(), "C17: the closed session is closed")
+	if nerr == nil && ns != nil && !ns.IsClosed() {
+		if ub == u0 {
+			vapi.AssertKnown(vIn(ns, w.reachable(vUIDs[0])), "C17-session-on-terminated-record", "C17: a live session is owned by the user's active record known to the server")
+		} else {
+			vapi.Assert(vIn(ns, w.reachable(vUIDs[0])), "C17: a fresh active record with a live session is never forgotten by the panel (its usage would go unreported and it could not be terminated)")
+		}
+	}
+	// one more round flushes whatever the termination collected
+	w.panel.updateUsageQueue()
+	w.panel.commitUpdate()
+	info, _ := w.mgr.GetUserInfo(vUIDs[0])
+	vapi.Assert(*info.UpCredit == 100-150, "C16/C17: the usage is charged exactly once whatever the overlap")
+	vapi.Reach("termrace-end")
+}
